@@ -60,7 +60,7 @@ package types
 //@ nopanic
 
 //@ func (*MsgNewBlockHashes).VoteSigDoc
-//@ property C01
+//@ property C01 C02
 //@ requires req != nil
 //@ ensures payload: result == bflatp(bcat(bzeros(8), le64(req.StartBlockNumber)), arr(req.BlockHash), off(req.BlockHash), len(req.BlockHash))
 //@ loop 0 invariant -1 <= rangeindex && rangeindex < len(req.BlockHash)
@@ -69,6 +69,6 @@ package types
 //@ modifies nothing
 
 //@ func (*MsgNewBlockHashes).MethodName
-//@ property C01
+//@ property C01 C02
 //@ ensures result == "Bitcoin/NewBlocks"
 //@ modifies nothing
